@@ -171,8 +171,12 @@ def decode (unwrapSites : Bool) : Nat → Ty → De → Outcome (Value × De)
       pure (.seq vs, d')
     | .map _ vt => mapLoop unwrapSites fuel vt true [] d
     | .unitEnum vs => do
-      let (sec, d') ← sectionOr unwrapSites "variant_seed" d
-      if vs.contains sec then pure (.variant sec, d') else .err .unknownVariant
+      -- `variant_seed` reads the name through `deserialize_identifier` = `deserialize_str` (fix ca4cc42): percent-decoded, UTF-8
+      let (sec, d') ← nextSection d
+      let v ← decodeStr P false sec
+      match v with
+      | .str n => if vs.contains n then pure (.variant n, d') else .err .unknownVariant
+      | _ => .err .type
     | .ignored =>
       match nextSection d with
       | .ok (_, d') => .ok (.unit, { d' with side := .key })
